@@ -1,223 +1,250 @@
-"""C09 - rebalancing trades the portfolio exactly onto its target (DESIGN C09: S1..S5)."""
+"""C09 - rebalancing trades the portfolio exactly onto its target (DESIGN C09: S1..S5).
+All rules work on the summary of PortfolioConstructionModel.__call__ with its private helpers inlined, so extracting, inlining or renaming
+helpers does not matter; public collaborators (broker, universe, alpha model, optimiser, sizer) appear as call events."""
 from .. import terms as T
-from ..lib import summarise, heap_writes, V, A, normal, raising, cond_str, no_inline, nested_events, loc_attr, props_only
+from ..lib import summarise, heap_writes, V, A, normal, raising, cond_str, no_inline, nested_events, loc_attr
 from ..symex import Valuation, default_policy
 from ..terms import fmt, ZERO, num
+from .sizers import sizing_paths, loop_asset_weight, is_empty_weights_path, call_is
 
 PCM = 'PortfolioConstructionModel'
-HELD = ('call', ('fn', 'SimulatedBroker.get_portfolio_as_dict'), (A('self', 'broker'), A('self', 'broker_portfolio_id')), ())
 
 
 def check(ctx):
-    s1_asset_set(ctx, 'C09.S1')
-    s2_s3_call(ctx)
-    s4_order_diff(ctx)
-    s5_sizers(ctx)
+    ctx.sub(s1_asset_set, 'C09.S1')
+    ctx.sub(s2_s3_call)
+    ctx.sub(s4_order_diff)
+    ctx.sub(s5_sizers)
 
 
+# ------------------------------------------------------------------------------------------------ matchers
+def strip_set(t):
+    """the collection a set()/list()/frozenset()/.keys() wrapper ranges over"""
+    while True:
+        if t[0] == 'call' and t[1] in (('ext', 'SET'), ('ext', 'LIST'), ('ext', 'builtins.frozenset'), ('ext', 'TUPLE')) and len(t[2]) == 1:
+            t = t[2][0]
+        elif t[0] == 'call' and t[1] == ('meth', 'keys') and len(t[2]) == 1:
+            t = t[2][0]
+        else:
+            return t
+
+
+def union_operands(t):
+    """operands of a union spelled a.union(b), a | b, set(x) | set(y), ... -> list of stripped operand terms, or None"""
+    t0 = t
+    if t[0] == 'call' and t[1] in (('ext', 'LIST'), ('ext', 'SET')) and len(t[2]) == 1:
+        inner = union_operands(t[2][0])
+        if inner is not None:
+            return inner
+    if t[0] == 'call' and t[1] == ('meth', 'union') and len(t[2]) >= 2:
+        out = []
+        for a in t[2]:
+            out += union_operands(a) or [strip_set(a)]
+        return out
+    if t[0] == 'call' and t[1] == ('ext', 'OP_BitOr') and len(t[2]) == 2:
+        out = []
+        for a in t[2]:
+            out += union_operands(a) or [strip_set(a)]
+        return out
+    return None
+
+
+def match_overlay(w):
+    """W = zero weights overlaid by optimiser weights (later wins) -> (Z, O) or None"""
+    if w[0] == 'dict' and len(w[1]) == 2 and w[1][0][0] is None and w[1][1][0] is None:
+        return w[1][0][1], w[1][1][1]
+    if w[0] == 'call' and w[1] == ('ext', 'UPDATED') and len(w[2]) == 2:
+        base = w[2][0]
+        if base[0] == 'call' and base[1] in (('ext', 'DICT'), ('meth', 'copy')) and len(base[2]) == 1:
+            base = base[2][0]
+        return base, w[2][1]
+    if w[0] == 'call' and w[1] == ('ext', 'OP_BitOr') and len(w[2]) == 2:
+        return w[2][0], w[2][1]
+    return None
+
+
+def match_zero_vector(z):
+    """{a: 0.0 for a in FULL} -> FULL or None"""
+    if z[0] == 'comp' and z[1] == 'dict' and len(z[3]) == 1 and not z[3][0][2] and len(z[3][0][0]) == 1 and z[2] == ('tuple', (z[3][0][0][0], ZERO)):
+        return z[3][0][1]
+    return None
+
+
+def pcm_paths(ctx):
+    return summarise(ctx, PCM + '.__call__', policy=default_policy)
+
+
+def events_of(p, suffix):
+    return [e for e in p.flat_events() if e.kind == 'call' and any(c.endswith(suffix) for c in e.callee)]
+
+
+# ------------------------------------------------------------------------------------------------ S1
 def s1_asset_set(ctx, rule):
-    qn = PCM + '._obtain_full_asset_list'
-    fn = ctx.fn(qn)
-    ps = summarise(ctx, qn, policy=no_inline)
-    ok1 = len(ps) == 1 and ps[0].outcome == 'return'
-    if not ctx.require(ok1 if ok1 else None, rule, '_obtain_full_asset_list is straight-line', fn.site(), [cond_str(p)[:80] for p in ps]):
-        return
-    v = ps[0].value
-    uni = [e for e in ps[0].flat_events() if e.kind == 'call' and any(c.endswith('.get_assets') for c in e.callee)]
-    held = [e for e in ps[0].flat_events() if e.kind == 'call' and 'SimulatedBroker.get_portfolio_as_dict' in e.callee]
-    ok = len(uni) == 1 and uni[0].args.get('dt') == V('dt') and uni[0].d.get('recv') == A('self', 'universe')
-    ctx.require(ok, rule, 'the universe is queried once, at dt', uni[0].site if uni else fn.site(), key='%s|universe' % rule)
-    ok = len(held) == 1 and held[0].args.get('portfolio_id') == A('self', 'broker_portfolio_id')
-    ctx.require(ok, rule, 'the held assets come from the session\'s own portfolio', held[0].site if held else fn.site(), key='%s|held' % rule)
-    if not (uni and held):
-        return
-    u, h = uni[0].result, held[0].result
-    hk = ('call', ('meth', 'keys'), (h,), ())
-    S = lambda x: ('call', ('ext', 'SET'), (x,), ())
-    L = lambda x: ('call', ('ext', 'LIST'), (x,), ())
-    helds = [h, hk, L(hk), L(h)]
-    unis = [u, L(u)]
-    forms = []
-    for a in helds:
-        for b in unis:
-            forms.append(('call', ('meth', 'union'), (S(a), S(b)), ()))
-            forms.append(('call', ('meth', 'union'), (S(b), S(a)), ()))
-            forms.append(('call', ('meth', 'union'), (S(a), b), ()))
-            forms.append(('call', ('meth', 'union'), (S(b), a), ()))
-            forms.append(('call', ('ext', 'OP_BitOr'), (S(a), S(b)), ()))
-            forms.append(('call', ('ext', 'OP_BitOr'), (S(b), S(a)), ()))
-    srt = v[0] == 'call' and v[1] == ('ext', 'SORTED') and not v[3]
-    inner = v[2][0] if srt else v
-    if inner[0] == 'call' and inner[1] == ('ext', 'LIST'):
-        inner = inner[2][0]
-    ctx.require(any(inner == f for f in forms), rule, 'the asset set is held assets UNION universe(dt)', fn.site(), fmt(inner)[:200], key='%s|union' % rule)
-    ctx.require(srt, rule, 'the asset list is sorted (deterministic, ascending)', fn.site(), fmt(v)[:120], key='%s|sorted' % rule)
-
-
-def s2_s3_call(ctx):
-    qn = PCM + '.__call__'
-    fn = ctx.fn(qn)
-    ps = summarise(ctx, qn, policy=no_inline)
+    fn = ctx.fn(PCM + '.__call__')
+    ps = pcm_paths(ctx)
     n = 0
     for p in normal(ps):
-        n += 1
-        ev = {k: [e for e in p.flat_events() if e.kind == 'call' and any(c == k or c.endswith('.' + k) for c in e.callee)] for k in
-              ('_obtain_full_asset_list', '_create_zero_target_weight_vector', '_create_full_asset_weight_vector', '_generate_target_portfolio',
-               '_obtain_current_portfolio', '_generate_rebalance_orders')}
-        opt = [e for e in p.flat_events() if e.kind == 'call' and any('Optimiser.__call__' in c for c in e.callee)]
-        tag = cond_str(p)[:70]
-        if not ctx.require(all(len(x) == 1 for x in ev.values()) and len(opt) == 1, 'C09.S2', 'each construction step runs exactly once [%s]' % tag, fn.site(),
-                           {k: len(x) for k, x in ev.items()}, key='C09.S2|steps'):
+        sz = events_of(p, 'OrderSizer.__call__')
+        if len(sz) != 1:
             continue
-        fa, zw, fw, tp, cp, ro = (ev[k][0] for k in ('_obtain_full_asset_list', '_create_zero_target_weight_vector', '_create_full_asset_weight_vector',
-                                                       '_generate_target_portfolio', '_obtain_current_portfolio', '_generate_rebalance_orders'))
-        ctx.require(fa.args.get('dt') == V('dt'), 'C09.S1', 'the asset set is taken at dt', fa.site, key='C09.S1|dt')
-        ctx.require(zw.args.get('full_assets') == fa.result, 'C09.S2', 'zero weights cover the full asset set (held + universe)', zw.site, fmt(zw.args.get('full_assets', ZERO))[:100],
-                    key='C09.S2|zero-cover')
-        ok = fw.args.get('zero_weights') == zw.result and fw.args.get('optimised_weights') == opt[0].result
-        ctx.require(ok, 'C09.S2', 'the full vector overlays the optimiser weights on the zero weights', fw.site, {k: fmt(v)[:60] for k, v in fw.args.items()}, key='C09.S2|overlay-args')
-        ctx.require(tp.args.get('weights') == fw.result and tp.args.get('dt') == V('dt'), 'C09.S3', 'the order sizer receives the full weight vector at dt', tp.site,
-                    fmt(tp.args.get('weights', ZERO))[:100], key='C09.S3|sizer-input')
-        ok = ro.args.get('target_portfolio') == tp.result and ro.args.get('current_portfolio') == cp.result and ro.args.get('dt') == V('dt')
-        ctx.require(ok, 'C09.S4', 'orders are the difference of the sized target and the current portfolio', ro.site, {k: fmt(v)[:50] for k, v in ro.args.items()}, key='C09.S4|diff-args')
-        ctx.require(p.outcome == 'return' and p.value == ro.result, 'C09.S4', 'the construction model returns those orders unmodified', fn.site(), fmt(p.value)[:80] if p.value else None,
-                    key='C09.S4|return')
-        # S3: the same vector is recorded
+        ov = match_overlay(sz[0].args.get('weights', ZERO))
+        full = match_zero_vector(ov[0]) if ov else None
+        if full is None:
+            ctx.undecided(rule, 'the sizer input is zero weights over the full asset set overlaid by the optimiser weights', sz[0].site, fmt(sz[0].args.get('weights', ZERO))[:200])
+            continue
+        n += 1
+        srt = call_is(full, 'SORTED') and not full[3]
+        ctx.require(srt, rule, 'the asset list is sorted (deterministic, ascending)', sz[0].site, fmt(full)[:120], key='%s|sorted' % rule)
+        ops = union_operands(full[2][0] if srt else full)
+        if ops is None:
+            ctx.violation(rule, 'the asset set is held assets UNION universe(dt)', sz[0].site, 'asset set is %s' % fmt(full)[:200], key='%s|union' % rule)
+            continue
+        held = [e for e in events_of(p, 'SimulatedBroker.get_portfolio_as_dict') if e.args.get('portfolio_id') == A('self', 'broker_portfolio_id') and e.d.get('recv') == A('self', 'broker')]
+        uni = [e for e in p.flat_events() if e.kind == 'call' and any(c.endswith('.get_assets') for c in e.callee) and e.d.get('recv') == A('self', 'universe') and e.args.get('dt') == V('dt')]
+        hres = {e.result for e in held}
+        ures = {e.result for e in uni}
+        has_h = any(o in hres for o in ops)
+        has_u = any(o in ures for o in ops)
+        other = [o for o in ops if o not in hres and o not in ures]
+        ctx.require(has_h, rule, 'the asset set includes every asset currently held in the session portfolio', sz[0].site, [fmt(o)[:80] for o in ops], key='%s|held' % rule)
+        ctx.require(has_u, rule, 'the asset set includes the universe at dt', sz[0].site, [fmt(o)[:80] for o in ops], key='%s|universe' % rule)
+        ctx.require(not other, rule, 'the asset set is exactly held assets UNION universe(dt)', sz[0].site, [fmt(o)[:80] for o in other], key='%s|union' % rule)
+    ctx.floor(rule, 'construction paths with a recognised asset set', n, 2)
+
+
+# ------------------------------------------------------------------------------------------------ S2, S3
+def s2_s3_call(ctx):
+    fn = ctx.fn(PCM + '.__call__')
+    ps = pcm_paths(ctx)
+    n = 0
+    for p in normal(ps):
+        tag = cond_str(p)[:70]
+        sz = events_of(p, 'OrderSizer.__call__')
+        opt = events_of(p, 'Optimiser.__call__')
+        if not ctx.require(len(sz) == 1 and len(opt) == 1, 'C09.S2', 'one optimiser call and one sizer call per construction [%s]' % tag, fn.site(),
+                           '%d optimiser, %d sizer calls' % (len(opt), len(sz)), key='C09.S2|steps'):
+            continue
+        n += 1
+        w = sz[0].args.get('weights', ZERO)
+        ov = match_overlay(w)
+        if not ctx.require(ov is not None, 'C09.S2', 'the sizer input overlays the optimiser weights on zero weights [%s]' % tag, sz[0].site, fmt(w)[:200], key='C09.S2|overlay'):
+            continue
+        z, o = ov
+        ctx.require(o == opt[0].result, 'C09.S2', 'zero weights first, optimiser weights second (later wins)', sz[0].site, 'second layer is %s' % fmt(o)[:120], key='C09.S2|overlay-order')
+        ctx.require(match_zero_vector(z) is not None, 'C09.S2', 'every asset of the full set gets an explicit zero weight', sz[0].site, fmt(z)[:160], key='C09.S2|zero-vector')
+        ctx.require(sz[0].args.get('dt') == V('dt') and sz[0].d.get('recv') == A('self', 'order_sizer'), 'C09.S3', 'the configured order sizer is asked for (dt, full weights)', sz[0].site,
+                    key='C09.S3|sizer-call')
+        ctx.require(opt[0].args.get('dt') == V('dt') and opt[0].d.get('recv') == A('self', 'optimiser'), 'C09.S2', 'the configured optimiser is asked at dt', opt[0].site, key='C09.S2|optimiser')
+        # S3: the same vector is recorded, dated dt
         has = None
         for c, v, _ in p.conds:
             if fmt(c) == 'stats is None':
                 has = not v
         apps = [e for e in p.flat_events() if e.kind == 'write' and e.how == 'mut:append' and e.loc == ('sub', V('stats'), ('str', 'target_allocations'))]
-        if has:
+        if has is None:
+            ctx.violation('C09.S3', 'recording is decided by `stats is not None` alone', fn.site(), 'path [%s] never tests stats' % tag, key='C09.S3|record-path')
+        elif has:
             ok = len(apps) == 1
             if ok:
                 rec = apps[0].value[2][1]
-                ok = rec[0] == 'call' and rec[1] == ('ext', 'UPDATED') and rec[2][0] == ('dict', ((('str', 'Date'), V('dt')),)) and rec[2][1] == fw.result
-                ok = ok or (rec[0] == 'dict' and (('str', 'Date'), V('dt')) in rec[1] and (None, fw.result) in rec[1])
-            ctx.require(ok, 'C09.S3', 'the recorded target allocation is the same full weight vector, dated dt', apps[0].site if apps else fn.site(),
-                        fmt(apps[0].value[2][1])[:160] if apps else None, key='C09.S3|record')
+                ok = (rec[0] == 'call' and rec[1] == ('ext', 'UPDATED') and rec[2][0] == ('dict', ((('str', 'Date'), V('dt')),)) and rec[2][1] == w) or \
+                    (rec[0] == 'dict' and rec[1] == ((('str', 'Date'), V('dt')), (None, w)))
+            ctx.require(ok, 'C09.S3', 'the recorded target allocation is the same full weight vector the sizer received, dated dt', apps[0].site if apps else fn.site(),
+                        fmt(apps[0].value[2][1])[:200] if apps else 'no record', key='C09.S3|record')
+        else:
+            ctx.require(not apps, 'C09.S3', 'nothing is recorded without a stats collector', fn.site(), key='C09.S3|no-record')
+        # S4 provenance: the orders returned are built from the sizer's answer and the broker's current holdings
+        held = [e for e in events_of(p, 'SimulatedBroker.get_portfolio_as_dict') if e.args.get('portfolio_id') == A('self', 'broker_portfolio_id')]
+        ret = p.value
+        uses_target = ret is not None and any(s == sz[0].result for s in T.subterms(ret))
+        uses_current = ret is not None and any(any(s == h.result for s in T.subterms(ret)) for h in held)
+        ctx.require(p.outcome == 'return' and uses_target and uses_current, 'C09.S4', 'the orders returned are derived from the sized target and the current holdings [%s]' % tag,
+                    fn.site(), fmt(ret)[:160] if ret else None, key='C09.S4|provenance')
+        ctx.sample({'rule': 'C09.S2/S3', 'path': tag, 'sizer_input': fmt(w)[:200]})
     ctx.floor('C09.S2', 'normal paths of the construction model', n, 2)
-    # helper bodies
-    ps = summarise(ctx, PCM + '._create_zero_target_weight_vector', policy=no_inline)
-    ok = len(ps) == 1 and ps[0].value is not None and ps[0].value[0] == 'comp' and ps[0].value[1] == 'dict' and len(ps[0].value[3]) == 1 and \
-        ps[0].value[3][0][1] == V('full_assets') and not ps[0].value[3][0][2] and ps[0].value[2] == ('tuple', (ps[0].value[3][0][0][0], ZERO))
-    ctx.require(ok, 'C09.S2', 'every asset of the set gets an explicit zero weight', ctx.fn(PCM + '._create_zero_target_weight_vector').site(),
-                [fmt(p.value)[:120] if p.value else p.outcome for p in ps], key='C09.S2|zero-vector')
-    ps = summarise(ctx, PCM + '._create_full_asset_weight_vector', policy=no_inline)
-    z, o = V('zero_weights'), V('optimised_weights')
-    ok = len(ps) == 1 and ps[0].value is not None and (ps[0].value == ('dict', ((None, z), (None, o))) or
-                                                        ps[0].value == ('call', ('ext', 'UPDATED'), (('call', ('ext', 'DICT'), (z,), ()), o), ()) or
-                                                        ps[0].value == ('call', ('ext', 'OP_BitOr'), (z, o), ()))
-    ctx.require(ok, 'C09.S2', 'zero weights first, optimiser weights second (later wins)', ctx.fn(PCM + '._create_full_asset_weight_vector').site(),
-                [fmt(p.value)[:120] if p.value else p.outcome for p in ps], key='C09.S2|overlay-order')
-    ps = summarise(ctx, PCM + '._generate_target_portfolio', policy=no_inline)
-    ok = len(ps) == 1 and ps[0].value is not None and ps[0].value[0] == 'call' and ps[0].value[1][0] == 'fn' and 'OrderSizer.__call__' in ps[0].value[1][1] and \
-        ps[0].value[2] == (A('self', 'order_sizer'), V('dt'), V('weights'))
-    ctx.require(ok, 'C09.S3', 'the target portfolio is the order sizer\'s answer for (dt, weights)', ctx.fn(PCM + '._generate_target_portfolio').site(),
-                [fmt(p.value)[:120] if p.value else p.outcome for p in ps], key='C09.S3|sizer-call')
-    ps = summarise(ctx, PCM + '._obtain_current_portfolio', policy=no_inline)
-    ok = len(ps) == 1 and ps[0].value == HELD
-    ctx.require(ok, 'C09.S4', 'the current portfolio is the broker\'s holdings report of the session portfolio', ctx.fn(PCM + '._obtain_current_portfolio').site(),
-                [fmt(p.value)[:120] if p.value else p.outcome for p in ps], key='C09.S4|current')
 
 
+# ------------------------------------------------------------------------------------------------ S4
 def s4_order_diff(ctx):
     qn = PCM + '._generate_rebalance_orders'
     fn = ctx.fn(qn)
     ps = summarise(ctx, qn, policy=default_policy)
-    ok1 = len(ps) == 1 and ps[0].outcome == 'return'
-    if not ctx.require(ok1 if ok1 else None, 'C09.S4', '_generate_rebalance_orders has one path', fn.site(), [cond_str(p)[:80] for p in ps]):
+    nps = [p for p in ps if p.outcome == 'return']
+    if not ctx.require(len(nps) == 1 and len(ps) == 1 if (len(nps) == 1 and len(ps) == 1) else None, 'C09.S4', '_generate_rebalance_orders has one path', fn.site(), [cond_str(p)[:80] for p in ps]):
         return
-    p = ps[0]
+    p = nps[0]
     v = p.value
     if not (v[0] == 'comp' and v[1] == 'list' and len(v[3]) == 1):
-        ctx.undecided('C09.S4', 'orders are built by one comprehension', fn.site(), fmt(v)[:160])
+        ctx.undecided('C09.S4', 'orders are one Order per asset (comprehension or append loop)', fn.site(), fmt(v)[:160])
         return
     tg, it, ifs = v[3][0]
     elt = v[2]
-    # iteration: sorted by asset key ascending
-    srt = it[0] == 'call' and it[1] == ('ext', 'SORTED')
-    k = dict(it[3]).get('key') if srt else None
-    rev = dict(it[3]).get('reverse') if srt else None
-    key_ok = k is None or k == ('lambda', 1, ('sub', ('bv', 0), num(0))) or (k[0] == 'call' and 'itemgetter' in fmt(k) and k[2] == (num(0),))
-    ctx.require(srt and key_ok and rev in (None, T.FALSE), 'C09.S4', 'orders are emitted in ascending asset order', fn.site(), fmt(it)[-120:], key='C09.S4|sorted')
-    # element: one Order(dt, asset, qty) per key
     if not (elt[0] == 'new' and elt[1] == 'Order'):
         ctx.undecided('C09.S4', 'each element is an Order', fn.site(), fmt(elt)[:100])
         return
     f = dict(elt[2])
-    ctx.require(f.get('created_dt') == V('dt') and f.get('asset') == tg[0], 'C09.S4', 'each order is for the loop asset, dated dt', fn.site(), key='C09.S4|order-fields')
+    asset = f.get('asset')
+    ctx.require(f.get('created_dt') == V('dt') and asset in tg, 'C09.S4', 'each order is for the loop asset, dated dt', fn.site(), fmt(asset) if asset else None, key='C09.S4|order-fields')
+    # iteration: every key of the target portfolio, ascending
+    srt = call_is(it, 'SORTED')
+    k = dict(it[3]).get('key') if srt else None
+    rev = dict(it[3]).get('reverse') if srt else None
+    key_ok = k is None or k == ('lambda', 1, ('sub', ('bv', 0), num(0))) or (k[0] == 'call' and 'itemgetter' in fmt(k) and k[2] == (num(0),))
+    ctx.require(srt and key_ok and rev in (None, T.FALSE), 'C09.S4', 'orders are emitted in ascending asset order', fn.site(), fmt(it)[-120:], key='C09.S4|sorted')
+    src = it[2][0] if srt else it
+    if src[0] == 'call' and src[1] in (('meth', 'items'), ('meth', 'keys')) and len(src[2]) == 1:
+        src = src[2][0]
+    roots = {s[1] for s in T.subterms(src) if s[0] == 'var'}
+    ctx.require('target_portfolio' in roots, 'C09.S4', 'an order is considered for every asset of the target portfolio', fn.site(), fmt(src)[:120], key='C09.S4|every-target')
+    # quantity = target - current
     qty = f.get('quantity')
-    # quantity = target - current for that asset
-    loops = [e for e in p.events if e.kind == 'loop']
-    diff_ok = None
-    for lp in loops:
-        for b in lp.paths:
-            for w in b.flat_events():
-                if w.kind == 'write' and w.d.get('local') and w.loc[0] == 'sub' and w.loc[1] == V('rebalance_portfolio') or (w.kind == 'write' and w.d.get('local') and fmt(w.loc).startswith('rebalance_portfolio[')):
-                    val = w.value
-                    if val[0] == 'dict' and (('str', 'quantity')) in dict(val[1]):
-                        q = dict(val[1])[('str', 'quantity')]
-                        asset = w.loc[2]
-                        tq = [s for s in T.subterms(q) if s[0] == 'sub' and s[2] == ('str', 'quantity')]
-                        # q must be (target[asset]['quantity']) - (current[asset]['quantity'])
-                        pos = [s for s in tq if s[1][0] == 'sub' and s[1][1] == V('target_portfolio')]
-                        neg = [s for s in tq if s[1][0] == 'sub' and s[1][1] == V('current_portfolio')]
-                        if len(pos) == 1 and len(neg) == 1:
-                            diff_ok = T.teq(q, T.t_sub(pos[0], neg[0])) and pos[0][1][0] == 'sub' and pos[0][1][2] == asset and neg[0][1][2] == asset
-                            if not diff_ok:
-                                ctx.violation('C09.S4', 'order quantity = target quantity - current quantity, asset by asset', w.site, fmt(q)[:200], key='C09.S4|difference')
-                        ctx.require(fmt(lp.iter).startswith('ACCUM') or 'target_portfolio' in fmt(lp.iter), 'C09.S4', 'a quantity is computed for every target asset', lp.site,
-                                    fmt(lp.iter)[:80], key='C09.S4|every-target')
-                        ctx.require(b.outcome == 'fall' and not b.conds, 'C09.S4', 'no asset is skipped when differencing', lp.site, b.describe()[:100], key='C09.S4|no-skip')
-    ctx.require(diff_ok if diff_ok is not None else None, 'C09.S4', 'order quantity = target quantity - current quantity, asset by asset', fn.site(), key='C09.S4|difference')
-    # filter: non-zero only
+    tq = ('sub', ('sub', V('target_portfolio'), asset), ('str', 'quantity'))
+    cq = ('sub', ('sub', V('current_portfolio'), asset), ('str', 'quantity'))
+    ok = qty is not None and T.teq(qty, T.t_sub(tq, cq))
+    ctx.require(ok, 'C09.S4', 'order quantity = target quantity - current quantity, asset by asset', fn.site(), 'quantity is %s' % (fmt(qty)[:200] if qty else None), key='C09.S4|difference')
+    # filter: exactly the non-zero differences
     okf = len(ifs) == 1 and ifs[0][0] == 'not' and ifs[0][1][0] == 'cmp' and ifs[0][1][1] == '==' and ZERO in (ifs[0][1][2], ifs[0][1][3])
     if okf:
         other = ifs[0][1][3] if ifs[0][1][2] == ZERO else ifs[0][1][2]
-        okf = T.teq(other, qty)
-    ctx.require(okf, 'C09.S4', 'exactly the non-zero differences become orders (the filtered quantity is the ordered quantity)', fn.site(), [fmt(c)[:120] for c in ifs],
-                key='C09.S4|nonzero')
-    # a held asset missing from the target defaults to current quantity 0 only for *target* assets; missing current -> 0
-    ctx.sample({'rule': 'C09.S4', 'iteration': fmt(it)[-100:], 'filter': [fmt(c)[-80:] for c in ifs]})
+        okf = qty is not None and T.teq(other, qty)
+    ctx.require(okf, 'C09.S4', 'exactly the non-zero differences become orders (the filtered quantity is the ordered quantity)', fn.site(), [fmt(c)[:120] for c in ifs], key='C09.S4|nonzero')
+    # a target asset missing from the current portfolio counts as quantity 0 (and nothing else is defaulted for target assets)
+    defaults = [w for w in heap_writes(p) if w.loc[0] == 'sub' and w.loc[1] in (V('current_portfolio'), V('target_portfolio'))]
+    defaults += [e for e in p.flat_events() if e.kind == 'write' and e.how == 'mut:setdefault']
+    for w in defaults:
+        val = w.value if w.how != 'mut:setdefault' else (w.value[2][2] if len(w.value[2]) > 2 else None)
+        ctx.require(val == ('dict', ((('str', 'quantity'), ZERO),)), 'C09.S4', 'a missing side defaults to quantity 0', w.site, fmt(val)[:60] if val else None, key='C09.S4|default')
+    ctx.sample({'rule': 'C09.S4', 'iteration': fmt(it)[-100:], 'quantity': fmt(qty)[:120] if qty else None, 'filter': [fmt(c)[-80:] for c in ifs]})
 
 
+# ------------------------------------------------------------------------------------------------ S5
 def s5_sizers(ctx):
     for cname in ('DollarWeightedCashBufferedOrderSizer', 'LongShortLeveragedOrderSizer'):
         qn = cname + '.__call__'
         fn = ctx.fn(qn)
-        ps = summarise(ctx, qn, policy=default_policy)
-        n = 0
-        for p in normal(ps):
-            empty = any(fmt(c) in ('LEN(weights) == 0', '0 == LEN(weights)') and v for c, v, _ in p.conds)
-            if empty:
-                ctx.require(p.value == ('dict', ()), 'C09.S5', '%s: no weights -> empty target' % cname, fn.site(), fmt(p.value), key='C09.S5|%s|empty' % cname)
-                continue
-            loops = [e for e in p.events if e.kind == 'loop']
-            if not ctx.require(len(loops) == 1, 'C09.S5', '%s: an explicit target for every weighted asset (one loop over all weights) [%s]' % (cname, cond_str(p)[:60]), fn.site(),
-                               'returns %s after %d loops' % (fmt(p.value)[:60], len(loops)), key='C09.S5|%s|loop' % cname):
-                continue
-            n += 1
-            lp = loops[0]
-            it = lp.iter
-            inner = it[2][0] if it[0] == 'call' and it[1] == ('ext', 'SORTED') else it
-            ok = inner[0] == 'call' and inner[1] == ('meth', 'items')
-            ctx.require(ok, 'C09.S5', '%s iterates all items of the normalised weights' % cname, lp.site, fmt(it)[:120], key='C09.S5|%s|items' % cname)
-            for b in lp.paths:
-                if b.outcome == 'raise':
+        ps, sp = sizing_paths(ctx, cname)
+        for p in ps:
+            if p.outcome == 'return' and not any(e.kind == 'loop' for e in p.events):
+                ok = is_empty_weights_path(p) and p.value == ('dict', ())
+                ctx.require(ok, 'C09.S5', '%s returns without sizing only for an empty weight dict (and then an empty target)' % cname, fn.site(),
+                            '[%s] -> %s' % (cond_str(p)[:100], fmt(p.value)[:40]), key='C09.S5|%s|early-return' % cname)
+        for s in sp:
+            p, lp = s['path'], s['loop']
+            asset, w, wsrc = loop_asset_weight(lp)
+            for b in s['bodies']:
+                bp = b['path']
+                if bp.outcome == 'raise':
                     continue
-                ws = [w for w in b.flat_events() if w.kind == 'write' and w.d.get('local') and w.loc[0] == 'sub' and w.loc[1] == V('target_portfolio')]
-                asset = ('sub', ('elem', lp.iter, lp.id), num(0))
-                ok = b.outcome == 'fall' and len(ws) == 1 and ws[0].loc[2] == asset
-                ctx.require(ok, 'C09.S5', '%s assigns a target to every asset it iterates (no break/continue/filter)' % cname, lp.site, b.describe()[:120],
+                ok = bp.outcome == 'fall' and len(b['writes']) == 1 and b['writes'][0].loc[2] == asset
+                ctx.require(ok, 'C09.S5', '%s assigns a target to every asset it iterates (no break/continue/filter)' % cname, lp.site, bp.describe()[:120],
                             key='C09.S5|%s|assign' % cname)
-            ctx.require(p.outcome == 'return' and p.value is not None and p.value[0] == 'accum' and p.value[2] == ('dict', ()), 'C09.S5',
-                        '%s returns the dict it filled' % cname, fn.site(), fmt(p.value)[:80] if p.value else None, key='C09.S5|%s|return' % cname)
-        ctx.floor('C09.S5', 'sizing paths of %s' % cname, n, 2)
-        # normalisation preserves the key set
-        qn2 = cname + '._normalise_weights'
-        ps = summarise(ctx, qn2, policy=default_policy)
-        for p in normal(ps):
+            # the value returned is the container the loop filled, keyed by every iterated asset
             v = p.value
-            ok = v == V('weights') or (v[0] == 'comp' and v[1] == 'dict' and len(v[3]) == 1 and fmt(v[3][0][1]) == 'weights.items()' and not v[3][0][2] and v[2][1][0] == v[3][0][0][0])
-            ctx.require(ok, 'C09.S5', '%s._normalise_weights keeps exactly the given assets [%s]' % (cname, cond_str(p)[:60]), ctx.fn(qn2).site(), fmt(v)[:120], key='C09.S5|%s|keys' % cname)
+            ok = v is not None and ((v[0] == 'comp' and v[1] == 'dict' and len(v[3]) == 1 and not v[3][0][2] and v[3][0][1] == lp.iter) or
+                                    (v[0] == 'accum' and v[2] == ('dict', ())))
+            ctx.require(ok, 'C09.S5', '%s returns a target for every weighted asset' % cname, fn.site(), fmt(v)[:100] if v else None, key='C09.S5|%s|return' % cname)
+            # the container iterated has exactly the keys of the weights given
+            okk = wsrc == V('weights') or (wsrc[0] == 'comp' and wsrc[1] == 'dict' and len(wsrc[3]) == 1 and not wsrc[3][0][2] and
+                                          fmt(wsrc[3][0][1]) in ('weights.items()', 'weights', 'weights.keys()') and wsrc[2][1][0] == wsrc[3][0][0][0])
+            ctx.require(okk, 'C09.S5', '%s: normalisation keeps exactly the given assets' % cname, lp.site, fmt(wsrc)[:120], key='C09.S5|%s|keys' % cname)
+        ctx.floor('C09.S5', 'sizing paths of %s' % cname, len(sp), 2)
